@@ -11,6 +11,7 @@ import (
 	"github.com/hashicorp/go-slug/sourceaddrs"
 	"github.com/hashicorp/go-slug/sourcebundle"
 
+	"verif/harness/corpus"
 	"verif/harness/fw"
 	"verif/harness/gen"
 )
@@ -274,12 +275,24 @@ func init() {
 			return r
 		},
 	}
+	kept := corpus.Manifests()
+	distilled := &fw.Phase{
+		Name: "fuzz-distilled-manifests", Exhaustive: true,
+		N: func(string) int { return len(kept) },
+		Run: func(env *fw.Env, idx int) fw.Result {
+			doc := []byte(kept[idx])
+			r := c18Check(c18Root(env), doc)
+			r.Hash = fw.HashString(string(doc))
+			r.Case = map[string]interface{}{"document": string(doc)}
+			return r
+		},
+	}
 	fw.Register(&fw.Property{
 		ID:    "C18",
 		Level: "exploration",
 		Rule: "manifest documents are written by the harness: field-wise (exhaustive over a 30-name hostile local-dir alphabet x {one package, alias pair of equal-length addresses, duplicate source}), PRNG documents (format numbers, valid / invalid sources, registry sections, odd versions, wrong JSON types) and manifests of real builds mutated at JSON-structure and byte level. " +
 			"When OpenDir accepts a document: no package may name a directory with a separator / '.' / '..' / empty; every LocalPathFor* answer for every listed package and registry version x sub-paths must be a proper descendant of the root; for 8 path shapes inside every package directory (absolute and relative to the working directory) the two lookups must invert each other and be stable; 7 foreign paths (root, manifest file, parent, sibling, sibling sharing the root's name prefix, unknown directory, '/') must be refused. non-trivial = the document was accepted; distinct = document",
 		Assumptions: []string{"the harness decodes the document leniently with encoding/json to learn which directory names it contains"},
-		Phases:      []*fw.Phase{fieldwise, random, mutated, nativeFuzzPhase("native-fuzz-opendir-lookups", "FuzzOpenDir", "lookups", 150000)},
+		Phases:      []*fw.Phase{fieldwise, random, mutated, distilled, nativeFuzzPhase("native-fuzz-opendir-lookups", "FuzzOpenDir", "lookups", 150000)},
 	})
 }
